@@ -13,7 +13,7 @@ ANCHORS = ["scores.py:Scores._invert_increasing_function", "scores.py:Scores._th
            "scores.py:Scores.threshold_at_tpr", "scores.py:Scores.threshold_at_fnr", "scores.py:Scores.threshold_at_tnr",
            "scores.py:Scores.threshold_at_fpr", "scores.py:Scores.threshold_at_topr", "scores.py:Scores.threshold_at_tonr"]
 RAISES_ARE_VIOLATIONS = True
-DECIDING = {"M-thr": 20000}
+DECIDING = {"M-thr": 139860}
 QUICK_EXTRA = []
 THOROUGH_EXTRA = ["WX", "W2", "W3"]
 RULE = (
